@@ -119,6 +119,7 @@ type Ledger struct {
 //
 //go:norace
 func ComputeLedger(chain []*BlockRec, owned map[[32]byte]bool) *Ledger {
+	Progress.Add(1)
 	l := &Ledger{Coins: map[wire.OutPoint]*Coin{}, PaidTo: map[[32]byte]bool{}}
 	games := map[wire.OutPoint]*GameRec{}
 	for h, b := range chain {
